@@ -41,11 +41,14 @@ RULE = ("generated fonts (1-3 layers, 0-5 glyphs each with contours/components/a
         "UFO 3 / UFO 2 / zipped UFO 3 and re-opened with unread / partly read / fully read glyphs and unread images/data, some with an image "
         "file named by another tool; then optionally edited: delete/rename/replace glyphs, clear/reverse contours, remove "
         "anchors/components/guidelines, delete layers/images/data, change default layer ...) x picked object of each of the "
-        "16 kinds x {data dict, pickle} x {new parent-less object, new object inside a font} + keys/partial ops with "
-        "whitelist/blacklist; the original is serialized untouched (the model's input is taken from an identically made "
+        "16 kinds x {data dict, pickle} x {new parent-less object, new object inside a font} x {nobody looks at the new object, "
+        "its derived / lazily built public data are read before the data are fed, an observer of every notification of the "
+        "target's notification centre reads them at the k-th announcement per name and object while the data come in, both} "
+        "+ keys/partial ops with whitelist/blacklist; the original is serialized untouched (the model's input is taken from an identically made "
         "twin); non-trivial = the picked object has content beyond a fresh object's; distinct = distinct case descriptions")
 ASSUMPTIONS = [
-    "defcon with repo_fixes/C14-*.diff applied (font guideline identifiers = F22, Layer.GlyphAdded on rebuild, image-set file names)",
+    "defcon with repo_fixes/C14-*.diff applied (font guideline identifiers = F22, Layer.GlyphAdded on rebuild, image-set file "
+    "names, C14-r2-1: an outline fed in the shallow form is announced)",
     "identifiers in use inside one glyph / among the font guidelines are unique (C10's invariant); otherwise the rebuild "
     "raises AssertionError, which the model reproduces (theorem glyph_rebuild_rejects_duplicate_identifiers)",
     "objects are edited through their attribute API: an Image keeps its eight entries (theorem "
@@ -53,7 +56,13 @@ ASSUMPTIONS = [
     "passed ufoLib's validator (every way in goes through the same setter)",
     "the target is a NEW object of the kind (parent-less; for glyph and layer also freshly made inside a new font; for a "
     "layer set: font.instantiateLayerSet() of a new font, because a LayerSet without a font cannot hold glyphs at all); "
-    "feeding data to an object that already has content is not part of the property and not exercised",
+    "feeding data to an object that already has content is not part of the property and not exercised; a new object that "
+    "has been looked at (getters called, nothing set) is still a new object",
+    "derived public data (unicodeData, component / image references, font.keys(), stored representations) are judged against "
+    "the rebuilt object's own plain data, which are judged against the original's: a unicode map that the ORIGINAL got wrong "
+    "(C09's subject) is not charged to the round trip; the order of glyph names inside one code point is history, not data",
+    "the looking observer reads, it never writes, and it reads nothing that loads a glyph's contours (bounds, area: read before "
+    "and after only), so that the load state of the rebuilt glyphs stays what the data dictionary says",
     "a layer's name and a glyph's name are owned by the container (layer set tuple / layer dict key): a parent-less "
     "Layer rebuilt from layer data has no name (names are compared at layer-set and font level)",
     "Lib.getParent() is not judged (it answers whichever ancestor happens to be cached, in any font); the lib's "
